@@ -6,6 +6,8 @@ pub mod c03;
 pub mod c04;
 pub mod c05;
 pub mod c06;
+pub mod c07;
+pub mod c08;
 pub mod c09;
 pub mod common;
 pub mod xfer;
@@ -22,6 +24,8 @@ pub fn dispatch(args: &Args) -> Report {
         "C04" => c04::run(args),
         "C05" => c05::run(args),
         "C06" => c06::run(args),
+        "C07" => c07::run(args),
+        "C08" => c08::run(args),
         "C09" => c09::run(args),
         "C10" => c10::run(args),
         "C18" => c18::run(args),
